@@ -11,6 +11,8 @@ import (
 	"github.com/lightningnetwork/lnd/chainio"
 	"github.com/lightningnetwork/lnd/chainntnfs"
 	"github.com/lightningnetwork/lnd/fn/v2"
+	"github.com/lightningnetwork/lnd/input"
+	"github.com/lightningnetwork/lnd/lntypes"
 	"github.com/lightningnetwork/lnd/lnwallet"
 	"github.com/lightningnetwork/lnd/lnwallet/chainfee"
 	"github.com/lightningnetwork/lnd/lnwire"
@@ -451,6 +453,17 @@ func (s *sim) offer() {
 		cltv = uint32(h) + uint32(1+r.Draw(5))
 	}
 	reqValue := value
+	w.kr.parent = nil
+	if kind == kindAnchor && r.Draw(2) == 1 {
+		// CPFP: the anchor belongs to a commitment that is still unconfirmed
+		// and pays a low fee itself (drawn last: older tapes yield none)
+		pw := int64(724 + 172*r.Draw(6))
+		w.kr.parent = &input.TxInfo{
+			Fee:    btcutil.Amount(pw * int64([]int{0, 253, 500, 1000}[r.Draw(4)]) / 1000),
+			Weight: lntypes.WeightUnit(pw),
+		}
+		r.Count("probe_anchor_with_unconfirmed_parent")
+	}
 	inp, reqOut, err := w.kr.buildInput(kind, idx, value, hint, csv, cltv, reqValue)
 	if err != nil {
 		r.Harness("build input: %v", err)
